@@ -215,10 +215,14 @@ def r08_4(ctx):
 
 @rule("R08.5", "C08", "callee temporaries cannot overwrite live caller temporaries: h_tmpN names are unique across the transformers whose code ends up in one effect", min_instances=2)
 def r08_5(ctx):
-    idx = get_index(ctx.env)
     from .c06 import r06_6
 
-    r06_6(ctx)
+    r06_6(ctx)  # (includes the per-routine prefix clause, routine_prefix_checks)
+
+
+def routine_prefix_checks(ctx):
+    """temporaries of a routine body carry a per-routine prefix that no other routine and no instruction body can produce"""
+    idx = get_index(ctx.env)
     # compile_sub_routine uses a fresh transformer -> fresh ILOpsHolder -> its own counter starting at 0: the names of a
     # body and of its callers (and of two bodies) can only differ through a per-routine component of the name
     cs = idx.func("Compiler.compile_sub_routine")
@@ -250,18 +254,35 @@ def r08_5(ctx):
                     and isinstance(n.value, ast.Constant) and isinstance(n.value.value, str)), None)
     ok = False
     obs = f"generator {U(gen[0])}: no per-transformer component that compile_sub_routine sets (a private counter per transformer: body and caller both start at <prefix>0)"
-    if scoped is not None and counter_last and default is not None and isinstance(scoped.value, ast.JoinedStr):
-        v = scoped.value.values
-        has_name = any(isinstance(x, ast.FormattedValue) and U(x.value) == name_param for x in v)
-        lead = v[0].value if isinstance(v[0], ast.Constant) else ""
-        tail = v[-1].value if isinstance(v[-1], ast.Constant) else ""
+    if scoped is not None and counter_last and default is not None:
+        # the prefix expression is evaluated for routine names that differ only slightly: the prefixes must be pairwise different
+        # (also for names that differ in case only), continue the default prefix with a non-digit and end with a non-digit
+        # (default names are <default><digits>, routine names <prefix><digits>: the counter is digits only, so names cannot coincide)
+        probes = ["clz32", "CLZ32", "Clz32", "sat_inc", "SAT_INC", "a", "a1", "a_1", "a1_"]
+        prefixes = {}
+        problems = []
+        for nm in probes:
+            def once(i, nm=nm):
+                return i.expr(scoped.value, {name_param: nm, "self": AObj("Compiler", {}, label="compiler")}, "Compiler")
+            try:
+                outs = Interp(idx).explore(once)
+                vals = {to_text(o.value) if o.kind == "return" else "RAISE" for o in outs}
+            except Exception as e:
+                vals = {f"not evaluable: {type(e).__name__}"}
+            if len(vals) != 1 or not isinstance(next(iter(vals)), str) or "<" in next(iter(vals)):
+                problems.append(f"{nm}: {sorted(vals)}")
+                continue
+            prefixes[nm] = next(iter(vals))
         before_transform = scoped.lineno < min([c.lineno for c in ast.walk(cs.node) if isinstance(c, ast.Call) and isinstance(c.func, ast.Attribute) and c.func.attr == "transform"] or [0])
-        # default names: <default><digits>; routine names: <lead><routine><tail><digits>.  They cannot coincide when the routine
-        # prefix continues the default one with a non-digit, and two routines cannot coincide when <tail> ends with a non-digit
-        # that routine names may contain only before it (the counter is digits only, so the last <tail> splits the name uniquely)
-        sep_ok = lead.startswith(default) and len(lead) > len(default) and not lead[len(default)].isdigit() and tail != "" and not tail[-1].isdigit()
-        ok = has_name and sep_ok and before_transform
-        obs = f"default prefix {default!r}, routine prefix {U(scoped.value)} set {'before' if before_transform else 'AFTER'} the body is transformed"
+        if not problems:
+            if len(set(prefixes.values())) != len(prefixes):
+                clash = sorted(k for k, v in prefixes.items() if list(prefixes.values()).count(v) > 1)
+                problems.append(f"routines {clash} share the prefix {prefixes[clash[0]]!r}")
+            for nm, pf in prefixes.items():
+                if not (pf.startswith(default) and len(pf) > len(default) and not pf[len(default)].isdigit() and not pf[-1].isdigit()):
+                    problems.append(f"{nm}: prefix {pf!r} can run into the default names {default!r}<digits> or into its own counter")
+        ok = not problems and before_transform
+        obs = f"default prefix {default!r}, routine prefix {U(scoped.value)} set {'before' if before_transform else 'AFTER'} the body is transformed" + ("; " + "; ".join(problems[:2]) if problems else "")
     if scoped is not None:
         unscoped = []
         for q in paths_of(cs.node):
